@@ -120,7 +120,10 @@ def build(case):
         for nm in ("ye", "cc"):
             m = np.array([ra.random() < case["aux_nan"]
                           for _ in range(y.size)]).reshape(shape)
-            dv[nm] = (order, np.where(m, np.nan, dv[nm][1]))
+            masked = np.where(m, np.nan, dv[nm][1])
+            if nm == "cc" and np.isfinite(masked).sum() < 2:
+                continue     # (a colour variable needs a range to map)
+            dv[nm] = (order, masked)
     czv = [1.5 + 0.75 * i * i for i in range(nz)]
     if case.get("z_shuffled"):
         random.Random(case["seed"] + 10).shuffle(czv)
